@@ -1317,3 +1317,23 @@ pub fn rqsc_controller(op: &Op) -> Vec<u8> {
         unreachable!()
     }
 }
+
+/// ACPI 6.5 Table 18.13 Generic Error Data Entry (revision 0x300 layout): Section Type GUID 16 @0,
+/// Error Severity 4 @16, Revision 2 @20, Validation Bits 1 @22, Flags 1 @23, Error Data Length 4 @24,
+/// FRU Id 16 @28, FRU Text 20 @44, Timestamp 8 @64, data @72.
+pub fn error_data(a: &ErrDataArg) -> Vec<u8> {
+    let mut e = vec![0u8; 72];
+    put_bytes(&mut e, 0, &a.section_type);
+    put(&mut e, 16, 4, a.severity.min(3) as u64);
+    put(&mut e, 20, 2, a.revision as u64);
+    put(&mut e, 22, 1, a.validation as u64);
+    put(&mut e, 23, 1, a.flags as u64);
+    put(&mut e, 24, 4, a.error_data_length as u64);
+    put_bytes(&mut e, 28, &a.fru_id);
+    put_bytes(&mut e, 44, &a.fru_text);
+    put_bytes(&mut e, 64, &a.timestamp);
+    for g in &a.data {
+        e.extend_from_slice(&gas(g));
+    }
+    e
+}
